@@ -633,6 +633,12 @@ func (p *CodeBuilder) CallInlineClosureStart(sig *types.Signature, arity int, el
 	for i := n1; i >= 0; i-- {
 		p.emitVar(pkg, closure, getParam(sig, i), true)
 	}
+	// The arguments are taken from the top of the stack down: put their declarations in call
+	// order, so that the arguments are evaluated from left to right.
+	for i, j := 0, n1; i < j; i, j = i+1, j-1 {
+		stmts := p.current.stmts
+		stmts[i], stmts[j] = stmts[j], stmts[i]
+	}
 	return p
 }
 
